@@ -219,6 +219,74 @@ def record_two_party(run: Run, rnd: random.Random, thorough: bool, evs: list[dic
     return stats
 
 
+def record_sp_inputs(run: Run, rnd: random.Random, evs: list[dict[str, Any]]) -> int:
+    """BIP352's reading of one input: which public key it contributes, or that it is skipped -- every eligible output type with its witness / scriptSig in each shape
+    (key path, script path, with an annex of one octet and of many, BIP341's NUMS internal key, a single item that starts with 0x50, nothing at all, uncompressed keys,
+    a key that is no point, a malleated p2pkh scriptSig)."""
+    from btclib import silent_payments as sp
+    from btclib.curves import mult
+    from btclib.hashes import hash160
+    from btclib.script.witness import Witness
+
+    NUMS = bytes.fromhex("50929b74c1a04954b78b4b6035e97a5e078a5a0f28ec96d547bfee9ace803ac0")
+    n0 = len(evs)
+
+    def ev(spk: bytes, sig: bytes, wit: list[bytes], what: str) -> None:
+        try:
+            got = sp.pub_key_from_input(spk, sig, Witness(wit))
+            out: Any = {"none": True} if got is None else {"none": False, "x": got[0].to_bytes(32, "big").hex(), "y": got[1].to_bytes(32, "big").hex()}
+        except Exception as e:  # noqa: BLE001
+            run.violation(f"sp|input|raised|{type(e).__name__}|{what}", f"pub_key_from_input raised {type(e).__name__}: {e} ({what})", {"what": what})
+            return
+        evs.append({"op": "spinput", "spk": spk.hex(), "sig": sig.hex(), "wit": [w.hex() for w in wit], "out": out, "what": what})
+
+    for trial in range(2):
+        d = rnd.randrange(1, 2**255)
+        P = mult(d)
+        x = P[0].to_bytes(32, "big")
+        comp = bytes([2 + P[1] % 2]) + x
+        unc = b"\x04" + x + P[1].to_bytes(32, "big")
+        sig64, der = rnd.randbytes(64), b"\x30\x44" + rnd.randbytes(68) + b"\x01"
+        internal = mult(rnd.randrange(1, 2**255))[0].to_bytes(32, "big")
+        tr = b"\x51\x20" + x
+        annexes = [b"\x50", b"\x50" + rnd.randbytes(7), b"\x50" * 2, b"\x50" + bytes(300)]
+        ev(tr, b"", [sig64], "p2tr key path")
+        ev(tr, b"", [], "p2tr with no witness")
+        ev(tr, b"", [b"\x50" + rnd.randbytes(63)], "p2tr, one item that starts with 0x50")
+        for cb_key, label in ((internal, "an internal key"), (NUMS, "the NUMS internal key")):
+            for ver in (0xC0, 0xC1):
+                control = bytes([ver]) + cb_key + rnd.randbytes(32 * (trial + 1))
+                ev(tr, b"", [b"\x51", control], f"p2tr script path, {label}")
+                ev(tr, b"", [sig64, b"\x20" + x + b"\xac", control], f"p2tr script path with an argument, {label}")
+                for a in annexes:
+                    ev(tr, b"", [b"\x51", control, a], f"p2tr script path, {label}, annex of {len(a)} octets")
+        for a in annexes:
+            ev(tr, b"", [sig64, a], f"p2tr key path, annex of {len(a)} octets")
+        xbad = next(v for v in range(2, 100) if pow((v**3 + 7) % (2**256 - 2**32 - 977), (2**256 - 2**32 - 977 - 1) // 2, 2**256 - 2**32 - 977) != 1)
+        ev(b"\x51\x20" + xbad.to_bytes(32, "big"), b"", [sig64], "p2tr whose output key is no point")
+        wp = b"\x00\x14" + hash160(comp)
+        ev(wp, b"", [der, comp], "p2wpkh")
+        ev(wp, b"", [der, unc], "p2wpkh with an uncompressed key")
+        ev(wp, b"", [], "p2wpkh with no witness")
+        ev(wp, b"", [der, b"\x02" + xbad.to_bytes(32, "big")], "p2wpkh whose key is no point")
+        sh = b"\xa9\x14" + hash160(wp) + b"\x87"
+        ev(sh, b"\x16" + wp, [der, comp], "p2sh-p2wpkh")
+        ev(sh, b"\x16" + wp, [], "p2sh-p2wpkh with no witness")
+        ev(sh, b"\x22\x00\x20" + bytes(32), [der, comp], "p2sh wrapping a p2wsh")
+        ev(sh, b"", [der, comp], "p2sh with an empty scriptSig")
+        pk = b"\x76\xa9\x14" + hash160(comp) + b"\x88\xac"
+        push = lambda b: bytes([len(b)]) + b  # noqa: E731
+        ev(pk, push(der) + push(comp), [], "p2pkh")
+        ev(pk, b"\x01\x00\x75" + push(der) + push(comp), [], "p2pkh with a dropped dummy ahead")
+        ev(pk, push(der) + push(comp) + b"\x01\x00\x75", [], "p2pkh with the key not last")
+        ev(pk, push(der), [], "p2pkh without a key")
+        ev(b"\x76\xa9\x14" + hash160(unc) + b"\x88\xac", push(der) + push(unc), [], "p2pkh of an uncompressed key")
+        ev(b"\x00\x20" + bytes(32), b"", [der, comp], "p2wsh")
+        ev(b"\x51\x02\x4e\x73", b"", [], "pay to anchor")
+    return len(evs) - n0
+
+
+
 def record_silent_payments(run: Run, rnd: random.Random, thorough: bool, evs: list[dict[str, Any]]) -> dict[str, int]:
     from btclib import silent_payments as sp
     from btclib.curves import mult
@@ -567,11 +635,12 @@ def check(run: Run) -> None:
     s1 = record_musig(run, rnd, thorough, evs)
     s2 = record_two_party(run, rnd, thorough, evs)
     s3 = record_silent_payments(run, rnd, thorough, evs)
+    s3["input readings"] = record_sp_inputs(run, random.Random(run.seed + 352), evs)
     s4 = record_psbt_musig(run, rnd, thorough, evs)
     s5 = record_rings(run, rnd, thorough, evs)
     s3["through_a_psbt"] = record_psbt_silent_payments(run, rnd, thorough, evs)
     keep = ("c", "ell", "ella", "ellb", "party", "rings", "e0", "v", "refused", "way", "agg", "internal", "root", "path", "spent_key", "accepted", "op", "pks", "tweaks", "pubnonces", "msg", "adaptor", "psigs", "verifies", "aggpk", "r", "s", "valid", "adapted_s", "adapted_valid", "extracted", "d", "q", "size", "info", "hf", "out",
-            "iv", "ke", "km", "a", "b", "c", "g", "proof", "ok", "inputs", "outpoints", "rs", "outs", "bscan", "bspend", "labels", "found")
+            "iv", "ke", "km", "a", "b", "c", "g", "proof", "ok", "inputs", "outpoints", "rs", "outs", "bscan", "bspend", "labels", "found", "spk", "sig", "wit")
     compact = [{k: v for k, v in e.items() if k in keep} for e in evs]
     results, bad, diag = events.validate("C16Trace", compact, batch=400, timeout=6000)
     for r in results:
